@@ -56,12 +56,15 @@ def gen_pol(rng):
 
 
 ACCEPT_ALL = {"default": True, "policies": []}
+REJECT_ALL = {"default": False, "policies": []}
 
 
 def gen_attrs(rng, peer, peers):
     tail = rng.choice([[], [65020], [65020, 65021], [65020, 65021, 65022], [65020]])
     if rng.random() < 0.1:
         tail = tail + [rng.choice(peers).asn]          # not exportable to that peer (its AS is in the path)
+    elif rng.random() < 0.1:
+        tail = tail + [LOCAL_AS]                       # looped: kept in the Adj-RIB-In, never a candidate, also after a reset
     return {"origin": rng.choice([0, 0, 1, 2]), "aspath": [peer.asn] + tail, "med": rng.choice([None, None, 0, 10]), "lp": None,
             "comms": rng.sample(c10.COMMS, rng.choice([0, 0, 1, 2])), "orig": None, "cl": []}
 
@@ -95,6 +98,24 @@ def gen_case(rng):
             ev.append(("obs",))
         else:
             ev.append(("probe", rng.choice(["in", "out", "out"])))
+    if rng.random() < 0.15 and ev:
+        # a directed block: the policy flips between two settings with a refresh / reset of one peer after each flip, so that
+        # a route-refresh or reset is the FIRST thing that tells the peer about a route (or takes one away)
+        q = rng.choice(peers).name
+        flip = [ACCEPT_ALL, REJECT_ALL, gen_pol(rng), gen_pol(rng)]
+        blk = []
+        if rng.random() < 0.5:
+            # closed, opened, closed again
+            shut = rng.choice([REJECT_ALL, REJECT_ALL, flip[2]])
+            d = rng.choice(["exp", "exp", "imp"])
+            op = {"exp": ["refresh", "refresh", "softout"], "imp": ["softin"]}[d]
+            blk = [("set" + d, shut), (rng.choice(op), q), ("set" + d, rng.choice([ACCEPT_ALL, flip[3]])), (rng.choice(op), q), ("set" + d, shut)]
+        else:
+            for _ in range(rng.choice([2, 3])):
+                blk.append((rng.choice(["setexp", "setexp", "setimp"]), rng.choice(flip)))
+                blk.append((rng.choice(["refresh", "refresh", "softout", "softin"]), q))
+        i = rng.randrange(len(ev) // 2, len(ev) + 1)
+        ev[i:i] = blk
     how = rng.random()
     for _ in range(2):
         if how < 0.5:
@@ -210,6 +231,45 @@ def model_line(c):
 
 
 # ---------------------------------------------------------------- canonical observations
+
+def unspecified_views(c):
+    """Per observation, the peers whose view the property leaves open: the export policy changed after the peer's last
+    soft reset out / ROUTE-REFRESH (so the view is stale by definition) AND a 'soft reset in of all peers' ran since.
+    ResetPeer("") walks the peer map in Go's map order; a peer whose own route is best for a moment is sent a withdrawal
+    of the stale route (filterPathFromSourcePeer), so WHICH stale routes survive depends on that order.  The property
+    speaks about the state after the corresponding soft reset only, and there the order does not matter."""
+    names = [p.name for p in c["peers"]]
+    dirty, open_, res = set(), set(), []
+    for e in c["events"]:
+        k = e[0]
+        if k == "setexp":
+            dirty = set(names)
+        elif k == "softin" and e[1] == "all":
+            open_ |= dirty
+        elif k in ("softout", "refresh"):
+            tgt = set(names) if e[1] == "all" else {e[1]}
+            dirty -= tgt
+            open_ -= tgt
+        elif k == "obs":
+            res.append(set(open_))
+        elif k == "probe":
+            res.append(set(open_))
+            if e[1] in ("in", "both"):
+                open_ |= dirty
+            if e[1] in ("out", "both"):
+                dirty, open_ = set(), set()
+            res.append(set(open_))
+    return res
+
+
+def mask_views(c, res):
+    um = unspecified_views(c)
+    for i, d in enumerate(res):
+        for name in (um[i] if i < len(um) else ()):
+            if name in d["peers"]:
+                d["peers"][name]["view"] = "unspecified-until-the-soft-reset-out"
+    return res
+
 def canon_impl(c, out):
     r = simlib.split_output(out)
     if r is None:
@@ -231,7 +291,7 @@ def canon_impl(c, out):
             b = [q["src"] for q in paths if q["best"]]
             d["best"][pf] = b[0] if b else "-"
         res.append(d)
-    return res
+    return mask_views(c, res)
 
 
 def canon_model(c, out):
@@ -252,7 +312,7 @@ def canon_model(c, out):
                     d["best"][pf] = simlib.int2ip(e[1]) if e[1] not in ("-", "local") else e[1]
                     d["rib"][pf] = sorted([addr[int(q[0])], simlib.model_attrs(q[1])] for q in e[2:])
         res.append(d)
-    return res
+    return mask_views(c, res)
 
 
 def norm_impl(c, out):
